@@ -148,6 +148,8 @@ struct Cfg {
     stderr: StderrKind,
     /// file arguments (their content), passed after `--`
     files: Vec<Vec<u8>>,
+    /// log the calls on fds 0-2 without changing them
+    watch: bool,
 }
 
 impl Cfg {
@@ -158,6 +160,7 @@ impl Cfg {
             stdin: StdinKind::File,
             stderr: StderrKind::File,
             files: Vec::new(),
+            watch: false,
         }
     }
 }
@@ -275,7 +278,11 @@ fn spawn_cfg(case: &Case, input: &[u8], cfg: &Cfg, paths: &[String], ctx: &mut C
         }
     }
     if with_shim {
-        std::fs::write(&planp, plan_text(case, &logp, paths)).map_err(|e| e.to_string())?;
+        let mut plan = plan_text(case, &logp, paths);
+        if cfg.watch {
+            plan.push_str("watch 0\nwatch 1\nwatch 2\n");
+        }
+        std::fs::write(&planp, plan).map_err(|e| e.to_string())?;
         cmd.env("LD_PRELOAD", shim_path());
         cmd.env("IOFAULT_PLAN", &planp);
     }
@@ -1136,4 +1143,29 @@ fn check_missing_file(case: &Case, ctx: &mut Ctx) -> Option<Violation> {
         );
     }
     None
+}
+
+/// What the real executable did at its three standard descriptors for this argv and input,
+/// observed (not altered) by the shim: (exit status, stdout, stderr, number of read calls on
+/// fd 0, number of write calls on fd 1). Used by C18's process family.
+pub fn run_watched(case: &Case, input: &[u8], ctx: &mut Ctx) -> Result<(Option<i32>, Vec<u8>, Vec<u8>, usize, usize), String> {
+    if !bin_path().exists() || !shim_path().exists() {
+        return Err(format!("process level needs {} and {} (run ./check setup)", bin_path().display(), shim_path().display()));
+    }
+    let mut cfg = Cfg::plain();
+    cfg.with_shim = true;
+    cfg.watch = true;
+    let mut bare = case.clone();
+    bare.delivery = Delivery::default();
+    bare.rfault = None;
+    bare.out = SinkPlan::default();
+    bare.err = SinkPlan::default();
+    bare.files.clear();
+    let c = spawn_cfg(&bare, input, &cfg, &[], ctx)?;
+    if c.timed_out {
+        return Err("watched child timed out".into());
+    }
+    let reads = c.log.iter().filter(|l| l.0 == 0 && l.1 == 'r').count();
+    let writes = c.log.iter().filter(|l| l.0 == 1 && l.1 == 'w').count();
+    Ok((c.status, c.out, c.err, reads, writes))
 }
